@@ -74,7 +74,7 @@ class Decline:
 '''
 REPR = {"int": "3", "negint": "-2", "zero": "0", "float": "2.5", "bool": "True", "str": "'ab'", "list": "[1, 2]",
         "tuple": "(1, 2)", "dict": "{'a': 1}", "set": "{1, 2}", "none": "None", "complex": "(1+2j)",
-        "sub": "Vec((10, 20))", "fwd": "Fwd()", "refl": "Refl()", "decline": "Decline()", "valobj": "Money(5)", "iterobj": "Bag()", "gen": "Once()"}
+        "sub": "Vec((10, 20))", "fwd": "Fwd()", "refl": "Refl()", "decline": "Decline()", "valobj": "Money(5)", "iterobj": "Bag()", "gen": "Once()", "inf": "float('inf')"}
 
 BIN = {"add": operator.add, "sub": operator.sub, "mul": operator.mul, "truediv": operator.truediv,
        "floordiv": operator.floordiv, "mod": operator.mod, "divmod": divmod, "pow": operator.pow,
@@ -145,6 +145,8 @@ def same(a, b):
     a, b = unwrap(a), unwrap(b)
     if isinstance(a, float) and isinstance(b, float) and a != a and b != b:
         return True
+    if type(a) is type(b) and type(a) in (tuple, list) and len(a) == len(b):
+        return all(same(x, y) for x, y in zip(a, b))          # (NaN inside a result pair, e.g. divmod(inf, 1))
     try:
         if type(a) is not type(b) and not (isinstance(a, (int, float, complex)) and isinstance(b, (int, float, complex))):
             # Fwd()/Refl() instances: independent objects of the same class compare by class
